@@ -135,3 +135,56 @@ def run_token(item):
         if bad2 or M2.shape != M.shape:
             out.update(ok=False, where_t="fit.transform", bad_t=bad2, shape_t=list(M2.shape))
     return out
+
+
+def run_timed(item):
+    """item as run_token plus times (same shape as corpus) and shifts (list of time offsets)."""
+    C = _cls("timed")
+    c, V = item["cfg"], item["V"]
+    kw = kwargs_for(c, V, needs_fixed_dict(c))
+    for ka in kw["kernel_args"]:
+        ka["delta"] = 1.0
+    kw.update(item.get("extra") or {})
+    exp = expected_cells(item["cells"])
+    out = {"ok": True}
+    for shift in item.get("shifts", [0]):
+        X = [[(TOKS[t], float(tm + shift)) for t, tm in zip(d, ts)] for d, ts in zip(item["corpus"], item["times"])]
+        m = C(**kw)
+        M = m.fit_transform(X)
+        bad = compare(exp, observed_cells(m, M))
+        if bad:
+            out.update(ok=False, where="fit_transform shift=%s" % shift, bad=bad)
+            break
+        if item.get("do_transform", True) and shift == 0:
+            m2 = C(**kw)
+            if m2.fit(X) is not m2:
+                out.update(ok=False, fit_returns_self=False)
+            M2 = m2.transform(X)
+            bad2 = compare(exp, observed_cells(m2, M2))
+            if bad2 or M2.shape != M.shape:
+                out.update(ok=False, where_t="fit.transform", bad_t=bad2, shape_t=list(M2.shape))
+    return out
+
+
+def run_multi(item):
+    C = _cls("multi")
+    c, V = item["cfg"], item["V"]
+    kw = kwargs_for(c, V, needs_fixed_dict(c))
+    kw.update(item.get("extra") or {})
+    X = [[[TOKS[t] for t in ms] for ms in d] for d in item["corpus"]]
+    exp = expected_cells(item["cells"])
+    m = C(**kw)
+    M = m.fit_transform(X)
+    out = {"ok": True}
+    bad = compare(exp, observed_cells(m, M))
+    if bad:
+        out.update(ok=False, where="fit_transform", bad=bad)
+    if item.get("do_transform", True):
+        m2 = C(**kw)
+        if m2.fit(X) is not m2:
+            out.update(ok=False, fit_returns_self=False)
+        M2 = m2.transform(X)
+        bad2 = compare(exp, observed_cells(m2, M2))
+        if bad2 or M2.shape != M.shape:
+            out.update(ok=False, where_t="fit.transform", bad_t=bad2, shape_t=list(M2.shape))
+    return out
